@@ -9,7 +9,7 @@ From Coq Require Import ZArith List Bool Lia.
 From Coq.Strings Require Import Byte.
 Import ListNotations.
 Require Import MS.Base.GoInt MS.Base.Res MS.Base.Hex MS.Base.Bytes MS.Base.Md5 MS.Generated.Src_wal
-               MS.Model.TGCodec MS.Model.WalScan MS.Proofs.WalScan_facts MS.Proofs.WalFrame_facts.
+               MS.Model.TGCodec MS.Proofs.TGCodec_facts MS.Model.WalScan MS.Proofs.WalScan_facts MS.Proofs.WalFrame_facts.
 Local Open Scope Z_scope.
 
 (** what Replay scans after TakeOverWALFile/WriteStatus rewrote the 11-byte status record *)
@@ -32,58 +32,50 @@ Print Assumptions C06_startup_cases.
 
 (* ------------------------------------------------------------------ (i) neither panics nor hangs *)
 
-(** "nor hangs" — for EVERY byte string: the first pass needs at most one iteration per byte (the model
-    never exhausts its fuel, exit class 4), and the second pass is a finite loop *)
+(** After the repairs in /repo (known_findings.txt "fixed:" lines: readTGData rejects tgLen < tgIDBytes,
+    wal.ReadStatus returns the read error before indexing, parseTGData checks every length field) the
+    statement holds AS GIVEN: whatever bytes the file contains, replay neither panics (exit class 2) nor
+    hangs (the model never exhausts its fuel, exit class 4).  The model keeps the panic outcome of every
+    make / slice / index expression of readTGData and of the decoder; the proof shows each one unreachable
+    behind the test that now precedes it (WalScan_facts.read_tg_no_panic, TGCodec_facts.parseTGData_no_panic). *)
+Theorem C06_no_panic : forall md5 root apply_ok bs,
+  r_code (replay_bytes md5 root apply_ok bs) <> 2%nat /\ r_code (replay_bytes md5 root apply_ok bs) <> 4%nat.
+Proof. exact replay_no_panic. Qed.
+Print Assumptions C06_no_panic.
+
+Theorem C06_startup_no_panic : forall md5 root apply_ok bs,
+  r_code (startup_replay md5 root apply_ok bs) <> 2%nat /\ r_code (startup_replay md5 root apply_ok bs) <> 4%nat.
+Proof.
+  intros md5 root apply_ok bs.
+  destruct (C06_startup_cases md5 root apply_ok bs) as [E|[_ [E|E]]]; rewrite E; [apply replay_no_panic| |]; split; discriminate.
+Qed.
+Print Assumptions C06_startup_no_panic.
+
 Theorem C06_terminates : forall md5 root apply_ok bs,
   r_code (replay_bytes md5 root apply_ok bs) <> 4%nat.
 Proof. exact replay_terminates. Qed.
 Print Assumptions C06_terminates.
 
-(** "never panics", guarded: no frame of the three panic kinds (negative tgLen / tgLen < 7 after the sanity
-    test / STATUS id as last byte) and every intact record of the file parses *)
-Theorem C06_no_panic_guarded : forall md5 root apply_ok bs,
-  no_panic_frames md5 bs = true ->
-  (forall p id body, intact_at md5 bs p id body -> ParseTGData body root <> Panic) ->
-  r_code (replay_bytes md5 root apply_ok bs) <> 2%nat /\ r_code (replay_bytes md5 root apply_ok bs) <> 4%nat.
-Proof. exact replay_no_panic. Qed.
-Print Assumptions C06_no_panic_guarded.
-
-(** the statement as given: whatever bytes the file contains, startup replay does not panic *)
-Definition C06_i_full : Prop := forall md5 root apply_ok bs,
-  r_code (startup_replay md5 root apply_ok bs) <> 2%nat.
+(** the fixed decoder alone: no byte string makes it index out of range *)
+Theorem C06_decoder_total : forall bs root, parseTGData bs root <> Panic.
+Proof. exact parseTGData_no_panic. Qed.
+Print Assumptions C06_decoder_total.
 
 Definition hdr : list byte := rec_status WFS_OPEN WRS_NOTREPLAYED 4711.
 Definition ok_all (_ : Z) (_ : list wtset) : bool := true.
 
-(** F8: a status record followed by nine zero bytes: TGDATA id, tgLen = 0 < 1000*size, make([]byte,0)[:7] *)
+(** the former counter-examples of the unguarded statement, kept as regressions: a status record followed
+    by nine zero bytes / a negative length / a lone STATUS id / an intact record with an undecodable body
+    now end with exit class 0 (nil) *)
 Definition C06_witness_nine_zeros : list byte := hdr ++ repeat x00 9.
-Theorem C06_i_refuted : ~ C06_i_full.
-Proof. intros H. apply (H md5 [] ok_all C06_witness_nine_zeros). vm_compute. reflexivity. Qed.
-Print Assumptions C06_i_refuted.
-
-(** negative length: make([]byte, -1) *)
 Definition C06_witness_negative_len : list byte := hdr ++ x00 :: repeat xff 8.
-Theorem C06_i_refuted_negative : ~ C06_i_full.
-Proof. intros H. apply (H md5 [] ok_all C06_witness_negative_len). vm_compute. reflexivity. Qed.
-
-(** a STATUS message id as the last byte: wal.Read returns nil on EOF, ReadStatus indexes it *)
 Definition C06_witness_status_eof : list byte := hdr ++ [x02].
-Theorem C06_i_refuted_status_eof : ~ C06_i_full.
-Proof. intros H. apply (H md5 [] ok_all C06_witness_status_eof). vm_compute. reflexivity. Qed.
-Print Assumptions C06_i_refuted_status_eof.
-
-(** an INTACT record (valid digest) whose body is not a serializer image: count field -1 *)
 Definition C06_witness_unparsable : list byte := hdr ++ rec_tg md5 (le_bytes 8 5 ++ repeat xff 8).
-Theorem C06_i_refuted_unparsable : ~ C06_i_full.
-Proof. intros H. apply (H md5 [] ok_all C06_witness_unparsable). vm_compute. reflexivity. Qed.
-Print Assumptions C06_i_refuted_unparsable.
-
-(** every witness is outside the guard exactly through its own class *)
-Example C06_i_witness_classes :
-  no_panic_frames md5 (taken_over C06_witness_nine_zeros) = false
-  /\ no_panic_frames md5 (taken_over C06_witness_negative_len) = false
-  /\ no_panic_frames md5 (taken_over C06_witness_status_eof) = false
-  /\ no_panic_frames md5 (taken_over C06_witness_unparsable) = true.
+Example C06_former_witnesses :
+  r_code (startup_replay md5 [] ok_all C06_witness_nine_zeros) = 0%nat
+  /\ r_code (startup_replay md5 [] ok_all C06_witness_negative_len) = 0%nat
+  /\ r_code (startup_replay md5 [] ok_all C06_witness_status_eof) = 0%nat
+  /\ r_code (startup_replay md5 [] ok_all C06_witness_unparsable) = 0%nat.
 Proof. vm_compute. repeat split; reflexivity. Qed.
 
 (* ------------------------------------------------------------------ (ii) only intact records are applied *)
@@ -120,7 +112,6 @@ Print Assumptions C06_frames_good_prefix.
 (** guarded statement: [good] = status record ++ well-formed records containing the intact transaction
     [body] (id t <> 0) with no checkpoint-commit record >= t behind it; [junk] arbitrary, but
       - its frames contain no checkpoint-commit record for an id >= t   (no_spurious_checkpoint, F9),
-      - the file has no panic frame                                      (F8, status-at-eof),
       - no TGDATA key occurs twice, a failed TGDATA read counting as key 0 (duplicate abort),
       - every intact record of the file parses and replays without error.
     Then t is applied. *)
@@ -132,15 +123,14 @@ Theorem C06_iii_guarded : forall md5, (forall x, length (md5 x) = 16%nat) ->
   let good := rec_status fs rs owner ++ enc md5 (r1 ++ RTG body :: r2) in
   let bs := good ++ junk in
   forallb (harmless t) (events md5 (length bs - length (r1 ++ RTG body :: r2)) bs (length good)) = true ->
-  no_panic_frames md5 bs = true ->
   NoDup (keys (frames md5 bs)) ->
   (forall q id b, intact_at md5 bs q id b ->
-     exists wts, ParseTGData b root = Ok (id, wts) /\ (wts = [] \/ apply_ok id wts = true)) ->
+     exists wts, parseTGData b root = Ok (id, wts) /\ (wts = [] \/ apply_ok id wts = true)) ->
   exists n, In (t, n) (r_applied (replay_bytes md5 root apply_ok bs)).
 Proof. exact good_prefix_applied. Qed.
 Print Assumptions C06_iii_guarded.
 
-(** the same with "the replay returned nil" in place of the last two hypotheses *)
+(** the same with "the transaction decodes and the replay returned nil" in place of the last hypothesis *)
 Theorem C06_iii_guarded_nil : forall md5, (forall x, length (md5 x) = 16%nat) ->
   forall root apply_ok fs rs owner r1 body r2 junk t,
   Forall wf_rec (r1 ++ RTG body :: r2) ->
@@ -150,6 +140,7 @@ Theorem C06_iii_guarded_nil : forall md5, (forall x, length (md5 x) = 16%nat) ->
   let bs := good ++ junk in
   forallb (harmless t) (events md5 (length bs - length (r1 ++ RTG body :: r2)) bs (length good)) = true ->
   NoDup (keys (frames md5 bs)) ->
+  parseTGData body root <> Rejected ->
   r_code (replay_bytes md5 root apply_ok bs) = 0%nat ->
   exists n, In (t, n) (r_applied (replay_bytes md5 root apply_ok bs)).
 Proof. exact good_prefix_applied_code0. Qed.
@@ -160,11 +151,10 @@ Print Assumptions C06_iii_guarded_nil.
 Theorem C06_iii_frames : forall md5 root apply_ok bs pre p t body post,
   frames md5 bs = pre ++ EvTG p t body :: post ->
   t <> 0 ->
-  no_panic_frames md5 bs = true ->
   NoDup (keys (frames md5 bs)) ->
   forallb (harmless t) post = true ->
   (forall q id b, intact_at md5 bs q id b ->
-     exists wts, ParseTGData b root = Ok (id, wts) /\ (wts = [] \/ apply_ok id wts = true)) ->
+     exists wts, parseTGData b root = Ok (id, wts) /\ (wts = [] \/ apply_ok id wts = true)) ->
   exists n, In (t, n) (r_applied (replay_bytes md5 root apply_ok bs)).
 Proof. exact intact_framed_applied. Qed.
 Print Assumptions C06_iii_frames.
@@ -215,15 +205,9 @@ Theorem C06_iii_refuted_duplicate : ~ C06_iii_full.
 Proof. refute_iii (x00 :: repeat x7f 8 ++ x00 :: repeat x7f 8). Qed.
 Print Assumptions C06_iii_refuted_duplicate.
 
-(** F8 again: a panic frame in the tail aborts the process before the second pass *)
-Theorem C06_iii_refuted_panic : ~ C06_iii_full.
-Proof. refute_iii (repeat x00 9). Qed.
-Print Assumptions C06_iii_refuted_panic.
-
 (** Non-vacuity: the same intact prefix followed by damage of the harmless kind (a torn TXNINFO record,
     an unknown message id, a TGDATA record with a flipped digest bit, and a truncated TGDATA record)
-    meets every hypothesis of C06_iii_guarded_nil and of C06_no_panic_guarded's frame guard, and the
-    transaction is applied. *)
+    meets every hypothesis of C06_iii_guarded_nil, and the transaction is applied. *)
 Definition w_junk : list byte :=
   [x07] ++ rec_txn 7 5 2 ++ (x00 :: le_bytes 8 16 ++ repeat x05 16 ++ repeat x09 16) ++ (x00 :: le_bytes 8 300 ++ repeat x01 20).
 Definition w_bs : list byte := (rec_status WFS_OPEN WRS_NOTREPLAYED 4711 ++ enc md5 (w_r1 ++ RTG w_body :: w_r2)) ++ w_junk.
@@ -231,8 +215,8 @@ Definition w_bs : list byte := (rec_status WFS_OPEN WRS_NOTREPLAYED 4711 ++ enc 
 Example C06_nonvacuous :
   forallb (harmless 1000) (events md5 (length w_bs - length (w_r1 ++ RTG w_body :: w_r2)) w_bs
                                   (length (rec_status WFS_OPEN WRS_NOTREPLAYED 4711 ++ enc md5 (w_r1 ++ RTG w_body :: w_r2)))) = true
-  /\ no_panic_frames md5 w_bs = true
   /\ keys (frames md5 w_bs) = [1000; 0]
+  /\ is_ok (parseTGData w_body []) = true
   /\ r_code (replay_bytes md5 [] ok_all w_bs) = 0%nat
   /\ r_applied (replay_bytes md5 [] ok_all w_bs) = [(1000, 1%nat)].
 Proof. vm_compute. repeat split; reflexivity. Qed.
